@@ -240,7 +240,13 @@ def crash (s : State) (i : Nat) (a : Actor) : State :=
 /-! ### enabledness (the observers' `is_enabled`) -/
 
 def pendEnabled (s : State) (i : Nat) : Pend → Bool
-  | .mutexWait m => mutexOwner s m == some i                       -- MutexAcquisitionObserver: acquisition_->is_granted()
+  | .mutexWait m =>
+    -- MutexAcquisitionObserver::is_enabled: acquisition_->is_granted().  An acquisition is granted when it took the
+    -- free mutex or when `unlock` popped it from the queue; the owner can itself be queued (self-deadlock of a
+    -- non-recursive mutex: lock after a successful try_lock), and that second acquisition is not granted.
+    match s.mutexes[m]? with
+    | some mu => mu.owner == some i && !mu.queue.contains i
+    | none => false
   | .semWait k => match s.sems[k]? with | some se => !se.queue.contains i | none => false
   | .barWait b => match s.bars[b]? with | some ba => !ba.queue.contains i | none => false
   | .cvWait c _ => match s.cvs[c]? with | some cv => !cv.queue.contains i | none => false
